@@ -1,11 +1,12 @@
 (* Extraction of the executable models (ExtrOcamlBasic only: bool/option/unit/list/prod/sumbool
    become the OCaml types; N, Z, positive, nat stay Coq datatypes). *)
 From Coq Require Import Extraction ExtrOcamlBasic.
-From GGRS Require Import Base Varint Rle Codec Builder Queue Sync P2P TimeSync Endpoint SyncTest.
+From GGRS Require Import Base Varint Rle Codec Builder Queue Sync P2P TimeSync Endpoint SyncTest Spectator.
 (* Z is used by every level driver *)
 From Coq Require Import ZArith.
 Extraction Language OCaml.
 Extraction "model.ml" Z.add N.add Nat.add
+  Spectator.sp_new Spectator.sp_handle_input Spectator.sp_handle_synchronized Spectator.sp_advance Spectator.sp_frames_behind
   Codec.encode Codec.decode Codec.decode_unvalidated
   Builder.run_calls
   Queue.q_new Queue.add_input Queue.input Queue.confirmed_input Queue.discard_confirmed_frames
